@@ -323,24 +323,57 @@ pub fn oracle_answer(caps: &TerminalCaps, c: RGBA) -> Option<u64> {
 
 pub fn run(input: &Value) -> Case {
     let caps = caps_of(&input["caps"]);
-    let (cmd, coq_cmd, colors) = build(&input["cmd"]);
-    let kind = input["cmd"]["t"].as_str().unwrap_or("Reset").to_string();
+    let stream = input.get("cmds").and_then(|v| v.as_array()).cloned();
+    let cmd_values: Vec<Value> = match &stream {
+        Some(a) => a.clone(),
+        None => vec![input["cmd"].clone()],
+    };
+    let mut cmds = vec![];
+    let mut coq_cmds = vec![];
+    let mut colors = vec![];
+    for c in &cmd_values {
+        let (cmd, coq_cmd, cs) = build(c);
+        cmds.push(cmd);
+        coq_cmds.push(coq_cmd);
+        colors.extend(cs);
+    }
+    let kind = if stream.is_some() { "Stream".to_string() } else { cmd_values[0]["t"].as_str().unwrap_or("Reset").to_string() };
     let mut oracle = vec![];
+    let mut seen: Vec<RGBA> = vec![];
     if caps.depth != ColorDepth::TrueColor {
         for c in &colors {
+            if seen.contains(c) {
+                continue;
+            }
+            seen.push(*c);
             if let Some(i) = oracle_answer(&caps, *c) {
                 oracle.push(format!("({}, {})", coq_rgba(*c), i));
             }
         }
     }
-    let out = encode_bytes(&caps, cmd);
+    // all commands go through ONE encoder object into one output
+    let out = {
+        let caps2 = caps.clone();
+        catch(move || {
+            let mut enc = TTYEncoder::new(caps2);
+            let mut out = Vec::new();
+            for cmd in cmds {
+                if enc.encode(&mut out, cmd).is_err() {
+                    return None;
+                }
+            }
+            Some(out)
+        })
+        .flatten()
+    };
     let depth = input["caps"]["depth"].as_str().unwrap_or("true");
     let coq = format!(
-        "Case (mkCaps {} {} {}) {} {} {}",
+        "{} (mkCaps {} {} {}) {} {} {}",
+        if stream.is_some() { "Stream" } else { "Case" },
         coq_depth(depth),
         cbool(caps.glyphs),
         cbool(caps.kitty_keyboard),
-        coq_cmd,
+        if stream.is_some() { clist(coq_cmds) } else { coq_cmds[0].clone() },
         clist(oracle),
         copt(out.as_ref().map(|b| cbytes(b)))
     );
@@ -609,10 +642,23 @@ pub fn generate(rng: &mut Rng, n: usize, tier: &str) -> Vec<Value> {
     v.push(json!({"caps": caps, "cmd": {"t": "Termcap", "names": []}}));
     v.push(json!({"caps": caps, "cmd": {"t": "Termcap", "names": ["", "Co"]}}));
     v.push(json!({"caps": caps, "cmd": {"t": "Termcap", "names": ["\u{e9}\u{20ac}\u{1f600}", "TN"]}}));
-    // (f) random commands under random capabilities
+    // (f) random commands under random capabilities; every fifth case is a stream of 2..6 commands
+    //     (no Raw) through one encoder object
     let fixed = v.len();
     while v.len() < fixed + n {
-        v.push(json!({"caps": rand_caps(rng), "cmd": rand_cmd(rng)}));
+        if v.len() % 5 == 0 {
+            let k = 2 + rng.below(5) as usize;
+            let mut cmds = vec![];
+            while cmds.len() < k {
+                let c = rand_cmd(rng);
+                if c["t"] != "Raw" {
+                    cmds.push(c);
+                }
+            }
+            v.push(json!({"caps": rand_caps(rng), "cmds": cmds}));
+        } else {
+            v.push(json!({"caps": rand_caps(rng), "cmd": rand_cmd(rng)}));
+        }
     }
     v
 }
